@@ -471,7 +471,10 @@ fn wrappers(b0: &[u8], b1: &[u8], rv_ok: Option<bool>, m0: &StandardPath, m1: &S
             let mut rmeta = meta.clone();
             rmeta.reverse();
             let fresh = mk(ScionDpPathView::Standard(boxed(b1)), dst, src, Some(rmeta), None);
-            if wf && sp1 != fresh {
+            // (the next hop is not part of the property: compared with it cleared on both sides)
+            let mut sp1n = sp1.clone();
+            sp1n.set_next_hop(None);
+            if wf && sp1n != fresh {
                 pvs.push(pv(
                     "Disagree:ScionPath.try_reverse:vs-fresh",
                     format!(
@@ -489,6 +492,7 @@ fn wrappers(b0: &[u8], b1: &[u8], rv_ok: Option<bool>, m0: &StandardPath, m1: &S
                 let r = catch(|| sp2.try_reverse().is_ok());
                 let mut want = sp0.clone();
                 want.set_next_hop(None);
+                sp2.set_next_hop(None);
                 if r != Ok(true) || sp2 != want {
                     pvs.push(pv("NotInvolution:ScionPath.try_reverse", "reversing twice does not give back the path (next hop aside)"));
                 }
